@@ -632,6 +632,10 @@ Definition cands_netlists (s : state) (fuel : nat) (roots : list item) : wres (l
 (* element[key] for string values (absent, or not a string: None) *)
 Definition key_of (s : state) (k : str) (e : id) : option str := get_str s e k.
 
+(* patterns._folds_case(element, key): key == "EDIF.identifier" and element[".NS"] == "EDIF" *)
+Definition fold_of (s : state) (k : str) (e : id) : bool :=
+  str_eqb k str_IDENT && match elem_pol s e with Some PolEdif => true | _ => false end.
+
 (* global_service.lookup(parent, <class>, key, value), a list: the namespace manager's lookup when one
    is registered for the key (it registers .NAME and EDIF.identifier) and it does not answer
    NotImplemented, else the linear scan.
@@ -647,10 +651,10 @@ Definition lk_of (s : state) (reg : bool) (k : str) (r : rel) (p : id) : str -> 
   if reg && registered_key k then
     match nstab s p with
     | Some t => if ns_indexes t k then fun v => opt_list (fast_lookup s p (rel_child r) k v)
-                else Filter.scan_lookup (key_of s k) (kids s r p)
-    | None => Filter.scan_lookup (key_of s k) (kids s r p)
+                else Filter.scan_lookup (key_of s k) (fold_of s k) (kids s r p)
+    | None => Filter.scan_lookup (key_of s k) (fold_of s k) (kids s r p)
     end
-  else Filter.scan_lookup (key_of s k) (kids s r p).
+  else Filter.scan_lookup (key_of s k) (fold_of s k) (kids s r p).
 
 Definition parents_of (s : state) (reg : bool) (k : str) (r : rel) (ps : list id)
   : list ((str -> list id) * list id) :=
@@ -662,7 +666,7 @@ Record qopts := mkQ { q_reg : bool; q_case : bool; q_re : bool; q_key : str; q_c
 Definition two_stage (s : state) (o : qopts) (nk : bool) (bk : bkind) (r : rel)
            (c : wres (list id * list id)) (pats : list str) : wres (list id) :=
   wmap (fun po => filter (q_cb o)
-                    (run_query (q_case o) (q_re o) (key_of s (q_key o)) nk bk
+                    (run_query (q_case o) (q_re o) (key_of s (q_key o)) (fold_of s (q_key o)) nk bk
                                (parents_of s (q_reg o) (q_key o) r (fst po)) (snd po) pats)) c.
 
 Definition query_instances s o fuel roots rec inside pats :=
@@ -674,7 +678,7 @@ Definition query_libraries s o fuel roots rec inside pats :=
 Definition query_ports s o fuel roots pats :=
   two_stage s o false BNames RPorts (cands_ports s fuel roots) pats.
 Definition query_netlists (s : state) (o : qopts) fuel roots pats : wres (list id) :=
-  wmap (fun objs => filter (q_cb o) (run_netlists (q_case o) (q_re o) (key_of s (q_key o)) objs pats))
+  wmap (fun objs => filter (q_cb o) (run_netlists (q_case o) (q_re o) (key_of s (q_key o)) (fold_of s (q_key o)) objs pats))
        (cands_netlists s fuel roots).
 
 Definition query_pins (s : state) (cb : pin -> bool) fuel roots (inside : bool) : wres (list pin) :=
